@@ -73,6 +73,20 @@ WireRefinesAbstract ==
   (Len(hist) <= WireDepth /\ ~done) =>
   \A ev \in OpSet : ev.e = "op" =>
      LET w == RunWire(c, ev)  a == CApply(c, ev) IN SameRes(w.res, a.res) /\ StoreEq(w.c, a.c)
+(* ... and the same for EVERY well-formed state of a bounded shape, reachable at that depth or not: both sides are    *)
+(* functions of (state, operation), so agreement on all states is agreement on all histories, of any length.          *)
+(* SpecAll starts TLC in each such state (nothing moves); WireRefinesAbstractEverywhere is its invariant.             *)
+ItemsAll == [t : {"item"}, v : Vals \cup {<<>>}, fl : {0}, exp : {0, -1, Start - 1, Start, Start + 2, Start + ThirtyDays + 9}, cas : 1..3]
+EntryAll == ItemsAll \cup {Absent}
+StatesAll == { [st |-> s, now |-> Start, ctr |-> n] :
+                 s \in [Keys -> EntryAll] \cup { [k \in {kk} |-> e] : kk \in Keys, e \in EntryAll } \cup { [k \in {} |-> Absent] },
+                 n \in {3, 8} }
+WellFormed(x) == \A k1, k2 \in DOMAIN x.st : (k1 # k2 /\ x.st[k1].t = "item" /\ x.st[k2].t = "item") => x.st[k1].cas # x.st[k2].cas
+InitAll == c \in { x \in StatesAll : WellFormed(x) } /\ hist = <<>> /\ done = FALSE
+SpecAll == InitAll /\ [][UNCHANGED vars]_vars
+WireRefinesAbstractEverywhere ==
+  \A ev \in OpSet : ev.e = "op" =>
+     LET w == RunWire(c, ev)  a == CApply(c, ev) IN SameRes(w.res, a.res) /\ StoreEq(w.c, a.c)
 ManyAgrees == LET m == ManyRes(c, <<"a", "b">>, FALSE)
               IN \A i \in DOMAIN m : m[i][2] = GetRes(c, m[i][1])
 =============================================================================
